@@ -638,3 +638,23 @@ def in_lib(path):
     """a file of the library under analysis: a source file of src/qtlogger, or the amalgamated single header (header-only configuration)"""
     path = path or ""
     return "/src/qtlogger/" in path or path.endswith("/qtlogger.h")
+
+
+def expand_locals(fn, n, depth=0):
+    """a copy of expression n in which every reference to a local that is initialised once and never written again (which includes the parameters of
+    helpers spliced into fn) is replaced by its initialiser, recursively: `line + '\\n'` with `line = msg.toLocal8Bit()` becomes `msg.toLocal8Bit() + '\\n'`"""
+    if isinstance(n, list):
+        return [expand_locals(fn, x, depth) for x in n]
+    if not isinstance(n, dict) or depth > 8:
+        return n
+    x = skip_copies(n)
+    if isinstance(x, dict) and (x.get("k") == "ref" and x.get("dk") == "local" or (x.get("k") == "call" and x.get("inl_value") is not None)):
+        d = deref_local(fn, x)
+        if isinstance(d, dict) and d.get("id") != x.get("id"):
+            return expand_locals(fn, d, depth + 1)
+    out = {}
+    for k, v in n.items():
+        if k in ("inl_body",):
+            continue
+        out[k] = expand_locals(fn, v, depth) if isinstance(v, (dict, list)) else v
+    return out
